@@ -2,6 +2,7 @@ package main
 
 import (
 	"fmt"
+	"github.com/yaricom/goNEAT/v4/neat/genetics"
 	"math"
 	"math/rand"
 
@@ -34,6 +35,10 @@ func init() {
 
 func runC04(c *Ctx, idx int) {
 	r := c.G
+	if idx%8 == 5 {
+		c04InEpochs(c)
+		return
+	}
 	o := genOpts(r)
 	// keep genes toggling so that disabled genes are common
 	o.MutateToggleEnableProb = 0.3 + r.Float64()*0.5
@@ -349,4 +354,89 @@ func c04Oracle(c *Ctx, p1, p2, ch *SnapGenome, op opKind, f1, f2 float64) (strin
 		c.Distinct(h.sum())
 	}
 	return "", ""
+}
+
+// c04InEpochs: the crossovers as the reproduction of a species calls them. A scenario of real epochs (sequential executor,
+// spawned population - common ancestry) is watched at the Mated hook: every child is checked against snapshots of the two
+// organisms it was made from, the fitter parent being the one with the higher fitness the evaluator assigned (the library
+// rewrites the organisms' fitness by sharing, age boost and stagnation penalty before it reproduces). Matings across
+// species are frequent.
+func c04InEpochs(c *Ctx) {
+	r := c.G
+	sc := genScenario(r, false)
+	sc.Parallel = false
+	if sc.Ctor == ctorRandom {
+		sc.Ctor = ctorSpawn
+		if sc.Start == nil {
+			o := genOpts(r)
+			sc.Start, sc.StartSrc = startGenome(r, o)
+		}
+	}
+	sc.RestoreAt = 0
+	sc.Epochs = 8 + r.Intn(8)
+	sc.Fitness = pick(r, fitUniform, fitLogNormal, fitDistinct)
+	sc.Opts.MutateOnlyProb = 0.2
+	sc.Opts.MateOnlyProb = 0.3
+	sc.Opts.InterspeciesMateRate = pick(r, 0.05, 0.3, 0.8)
+	sc.Opts.CompatThreshold = pick(r, 0.3, 1.0, 2.0) // several species of different sizes and ages
+	sc.Opts.MutateAddNodeProb = 0.2 + r.Float64()*0.3
+	sc.Opts.MutateAddLinkProb = 0.2 + r.Float64()*0.4
+	sc.Opts.MutateToggleEnableProb = 0.3
+	sc.Opts.DropOffAge = 2 + r.Intn(4)
+	if sc.Opts.PopSize < 20 {
+		sc.Opts.PopSize = pick(r, 20, 40, 60)
+	}
+	if sc.Opts.PopSize > 80 {
+		sc.Opts.PopSize = 80
+	}
+	if sc.Opts.BabiesStolen > sc.Opts.PopSize/2 {
+		sc.Opts.BabiesStolen = sc.Opts.PopSize / 2
+	}
+	c.Count("scenarios.in_epochs", 1)
+	runScenario(c, sc, &mateMonitor{})
+}
+
+type mateMonitor struct {
+	fit  map[*genetics.Organism]float64
+	stop bool
+}
+
+func (m *mateMonitor) Constructed(c *Ctx, sc *EvoScenario, pop *genetics.Population) {
+	genetics.VerifHooks.Mated = func(mom, dad *genetics.Organism, child *genetics.Genome, method string) {
+		if m.stop || c.Violated() {
+			return
+		}
+		f1, ok1 := m.fit[mom]
+		f2, ok2 := m.fit[dad]
+		if !ok1 || !ok2 || child == nil {
+			return
+		}
+		op := map[string]opKind{"multipoint": opMateMultipoint, "multipoint_avg": opMateMultipointAvg, "singlepoint": opMateSinglePoint}[method]
+		sa, sb, sch := snapGenome(mom.Genotype), snapGenome(dad.Genotype), snapGenome(child)
+		if len(sa.Modules) > 0 || len(sb.Modules) > 0 {
+			return
+		}
+		c.Eval(1)
+		c.Count("matings.in_epochs."+method, 1)
+		if mom.Species != dad.Species {
+			c.Count("matings.in_epochs.across_species", 1)
+		}
+		if kind, msg := c04Oracle(c, sa, sb, sch, op, f1, f2); kind != "" {
+			m.stop = true
+			c.Violate(kind, map[string]interface{}{"method": method, "fitness_assigned_to_mom": fmt.Sprint(f1), "fitness_assigned_to_dad": fmt.Sprint(f2),
+				"fitness_fields_at_mating": fmt.Sprint(mom.Fitness, " / ", dad.Fitness), "parent1": sa, "parent2": sb, "child": sch, "scenario": sc.brief(), "in_epoch": true},
+				"%s inside an epoch (mom was assigned fitness %v, dad %v): %s", method, f1, f2, msg)
+		}
+	}
+}
+
+func (m *mateMonitor) BeforeEpoch(c *Ctx, sc *EvoScenario, gen int, pop *genetics.Population) {
+	m.fit = make(map[*genetics.Organism]float64, len(pop.Organisms))
+	for _, org := range pop.Organisms {
+		m.fit[org] = org.Fitness
+	}
+}
+
+func (m *mateMonitor) AfterEpoch(c *Ctx, sc *EvoScenario, gen int, pop *genetics.Population, err error) bool {
+	return err == nil && !m.stop
 }
